@@ -52,6 +52,44 @@ def replay_bitperm(ctx):
         ctx.check(np.abs(A - B).max() < 1e-9, 'svd_matrix:roundtrip', 'full_matrix(svd_matrix(A)) != A (q=%d)' % q)
 
 
+def _svd_worker(task):
+    case, seed = task
+    rng = np.random.default_rng(seed)
+    sp = int(rng.choice([0, -20, 20, -10, 10]))
+    try:
+        msg = RD.replay_svd(None, case, rng, scale_pow=sp)
+    except Exception as ex:
+        msg = 'svd raised %s: %s' % (type(ex).__name__, ex)
+    reduced = any(a < b for o in case['outcomes'] for a, b in zip(o['ranks'], RD.input_ranks(case)))
+    out = [('case', (case['ent'], case['T'], case['cap'], 'svd'), reduced,
+            {'entries': case['ent'], 'T': case['T'], 'cap': case['cap'], 'scale_pow': sp, 'outcomes': case['outcomes'][:2]} if seed % 997 == 0 else None)]
+    if msg:
+        out.append(('viol', 'svd', msg, case))
+    return out
+
+
+def _matrix_worker(task):
+    case, seed = task
+    rng = np.random.default_rng(seed)
+    sp = int(rng.choice([0, -20, 20]))
+    if case['dir'] == 'rel':
+        fn, gt = 'skeleton', ['l', 'm', 'r'][int(rng.integers(3))]
+    else:
+        fn = ['skeleton', 'svd'][int(rng.integers(2))]
+        gt = ['l', 'm', 'r'][int(rng.integers(3))]
+        if RD.tiered(case):
+            fn = 'skeleton'          # matrix_svd works through a Gram matrix: sqrt(eps) floor
+    try:
+        msg = RD.replay_matrix(None, case, rng, fn, give_to=gt, scale_pow=sp)
+    except Exception as ex:
+        msg = 'matrix_%s raised %s: %s' % (fn, type(ex).__name__, ex)
+    reduced = any(o['ranks'][0] < RD.input_ranks(case)[0] for o in case['outcomes'])
+    out = [('case', (case['ent'], case['T'], case['cap'], case['dir'], fn, gt), reduced, None)]
+    if msg:
+        out.append(('viol', 'matrix_' + fn, msg, case))
+    return out
+
+
 def run(ctx):
     ctx.rule = ('cases = (family member, absolute threshold T+1/2, cap, scale) emitted by TLC x routine '
                 '(svd, matrix_skeleton l/m/r, rel, matrix_svd tall/wide) + interleaving table; '
@@ -66,15 +104,9 @@ def run(ctx):
         order = rng.permutation(len(cases))
         if ctx.replay_filter and ctx.replay_filter['case'].get('d', 0) > 2:
             cases, order = [ctx.replay_filter['case']], [0]
-        for j in order[:5000 if quick else len(cases)]:
-            case = cases[j]
-            sp = int(rng.choice([0, -20, 20, -10, 10]))
-            msg = RD.replay_svd(ctx, case, rng, scale_pow=sp)
-            reduced = any(a < b for o in case['outcomes'] for a, b in zip(o['ranks'], RD.input_ranks(case)))
-            ctx.case(key=(case['ent'], case['T'], case['cap'], 'svd'), nontrivial=reduced,
-                     sample={'entries': case['ent'], 'T': case['T'], 'cap': case['cap'], 'scale_pow': sp, 'outcomes': case['outcomes'][:2]})
-            if msg:
-                ctx.violation('svd', msg, case=case)
+        from . import common
+        tasks = [(cases[j], int(ctx.seed * 1000003 + j)) for j in order[:5000 if quick else len(cases)]]
+        common.pmap(ctx, _svd_worker, tasks)
     mcfg = 'Rounding_c03_m.cfg' if quick else 'Rounding_c03_t3.cfg'
     cases = RD.emit(ctx, mcfg, 'Rounding D=2 (matrix factorisations): ' + mcfg, workers=16)
     tc = RD.emit(ctx, 'Rounding_c03_tierm.cfg', 'Rounding D=2 with thresholds at relative size 1e-9 (tier encoding)', workers=16)
@@ -82,19 +114,7 @@ def run(ctx):
     order = rng.permutation(len(cases))
     if ctx.replay_filter and ctx.replay_filter['case'].get('d', 0) == 2:
         cases, order = [ctx.replay_filter['case']], [0]
-    for j in order[:6000 if quick else len(cases)]:
-        case = cases[j]
-        sp = int(rng.choice([0, -20, 20]))
-        if case['dir'] == 'rel':
-            fn, gt = 'skeleton', ['l', 'm', 'r'][int(rng.integers(3))]
-        else:
-            fn = ['skeleton', 'svd'][int(rng.integers(2))]
-            gt = ['l', 'm', 'r'][int(rng.integers(3))]
-            if RD.tiered(case):
-                fn = 'skeleton'          # matrix_svd works through a Gram matrix: sqrt(eps) floor
-        msg = RD.replay_matrix(ctx, case, rng, fn, give_to=gt, scale_pow=sp)
-        reduced = any(o['ranks'][0] < RD.input_ranks(case)[0] for o in case['outcomes'])
-        ctx.case(key=(case['ent'], case['T'], case['cap'], case['dir'], fn, gt), nontrivial=reduced)
-        if msg:
-            ctx.violation('matrix_' + fn, msg, case=case)
+    from . import common
+    tasks = [(cases[j], int(ctx.seed * 1000003 + j + 7)) for j in order[:6000 if quick else len(cases)]]
+    common.pmap(ctx, _matrix_worker, tasks)
     replay_bitperm(ctx)
